@@ -27,7 +27,20 @@ type model struct {
 	cap  int
 }
 
+// gkey keeps states with a guarded source apart from structurally equal ones without
+func gkey() string {
+	if guardSrc != nil {
+		return "guarded:"
+	}
+	return ""
+}
+
+// guards: the source stack of a copy constructor must stay independent of the copy
+var guardSrc col.StackLike[int]
+var guardDump string
+
 func construct(op Op) (s col.StackLike[int], m model, out rt.Outcome) {
+	guardSrc, guardDump = nil, ""
 	C := col.Stack[int](common.N())
 	mk := func(n int) []int {
 		a := make([]int, n)
@@ -50,6 +63,16 @@ func construct(op Op) (s col.StackLike[int], m model, out rt.Outcome) {
 		case "MakeFromSequence":
 			s = C.MakeFromSequence(col.List[int](common.N()).MakeFromArray(mk(op.I)))
 			m = model{vals: mk(op.I), cap: -1}
+		case "MakeFromStack":
+			// the source is itself a stack, filled to its own small capacity
+			src := C.MakeWithCapacity(uint(op.I + 1))
+			vals := mk(op.I)
+			for i := len(vals) - 1; i >= 0; i-- {
+				src.AddValue(vals[i])
+			}
+			s = C.MakeFromSequence(src)
+			m = model{vals: vals, cap: -1}
+			guardSrc, guardDump = src, dump.Dump(src)
 		}
 	})
 	return
@@ -146,7 +169,7 @@ func exec(r *engine.Rec, name string) func(path []Op, op Op) seqx.Step {
 				return viol("constructor "+op.K+" wrong contents (first array element must be the top)", fmt.Sprint(s.AsArray(), m.vals))
 			}
 			r.Outcome("ctor")
-			return seqx.Step{Key: dump.Dump(s), Size: len(m.vals), Expand: true}
+			return seqx.Step{Key: gkey() + dump.Dump(s), Size: len(m.vals), Expand: true}
 		}
 		s, m, out := construct(path[0])
 		if out.Panicked {
@@ -206,6 +229,9 @@ func exec(r *engine.Rec, name string) func(path []Op, op Op) seqx.Step {
 		if s.GetSize() > int(s.GetCapacity()) {
 			return viol("size exceeds capacity after "+op.K, fmt.Sprint(s.GetSize(), s.GetCapacity()))
 		}
+		if guardSrc != nil && dump.Dump(guardSrc) != guardDump {
+			return viol(op.K+" on a stack built from another stack changes that other stack (shared storage)", fmt.Sprintf("source now %v", guardSrc.AsArray()))
+		}
 		switch op.K {
 		case "AsArray", "Iterate", "GetSize", "IsEmpty", "GetCapacity":
 			if before != after {
@@ -215,7 +241,7 @@ func exec(r *engine.Rec, name string) func(path []Op, op Op) seqx.Step {
 		if len(r.Samples) < 2 && len(path) > 2 {
 			r.Sample(map[string]any{"path": fmt.Sprintf("%+v", path), "op": fmt.Sprintf("%+v", op), "stack": fmt.Sprint(nm.vals)})
 		}
-		return seqx.Step{Key: after, Size: len(nm.vals), Expand: true}
+		return seqx.Step{Key: gkey() + after, Size: len(nm.vals), Expand: true}
 	}
 }
 
@@ -248,6 +274,9 @@ func units(tier string) []engine.Unit {
 		inits = append(inits, Op{K: "Make"})
 		for n := 0; n <= 33; n++ {
 			inits = append(inits, Op{K: "MakeFromArray", I: n}, Op{K: "MakeFromSequence", I: n})
+		}
+		for n := 0; n <= 5; n++ {
+			inits = append(inits, Op{K: "MakeFromStack", I: n})
 		}
 		s := &seqx.Search[Op]{Name: name, MaxSize: 1 << 30, Ops: oneVal, Exec: exec(r, name), Inits: inits}
 		s.Run(r)
